@@ -13,6 +13,9 @@ import (
 	"golang.org/x/crypto/ssh"
 )
 
+// pubKeyExtension is the Permissions.Extensions key carrying the authenticated public key.
+const pubKeyExtension = "p2p-pubkey"
+
 type Conn struct {
 	swarm      *Swarm
 	remoteAddr Addr
@@ -27,11 +30,11 @@ type Conn struct {
 }
 
 func newServer(s *Swarm, netConn net.Conn) (*Conn, error) {
-	var pubKey ssh.PublicKey
 	config := &ssh.ServerConfig{
 		PublicKeyCallback: func(md ssh.ConnMetadata, pk ssh.PublicKey) (*ssh.Permissions, error) {
-			pubKey = pk
-			return &ssh.Permissions{}, nil
+			// this callback also runs for keys the client merely asks about; the key that
+			// actually authenticated is the one whose Permissions the handshake returns.
+			return &ssh.Permissions{Extensions: map[string]string{pubKeyExtension: string(pk.Marshal())}}, nil
 		},
 	}
 	config.AddHostKey(s.signer)
@@ -40,8 +43,12 @@ func newServer(s *Swarm, netConn net.Conn) (*Conn, error) {
 	if err != nil {
 		return nil, err
 	}
-	if pubKey == nil {
+	if sconn.Permissions == nil {
 		return nil, errors.New("pubkey not set after connection")
+	}
+	pubKey, err := ssh.ParsePublicKey([]byte(sconn.Permissions.Extensions[pubKeyExtension]))
+	if err != nil {
+		return nil, errors.Wrap(err, "pubkey not set after connection")
 	}
 
 	raddr := sconn.RemoteAddr().(*net.TCPAddr)
